@@ -311,6 +311,20 @@ func c13Hs(c *h.Ctx) {
 	}
 	c.Case("hs/canon", "16", true)
 
+	// 6b. computeAcceptKey against the Lean specification (SHA-1 and base64 written from the standards) and against
+	// the standard library over the RFC's GUID; SHA-1 block boundaries (key lengths around 19/20 and 83/84 octets:
+	// with the 36-octet GUID the padded message crosses 64 and 128 octets there)
+	for _, n := range []int{0, 1, 16, 18, 19, 20, 24, 27, 28, 55, 83, 84, 91, 92, 200} {
+		key := base64.StdEncoding.EncodeToString(r.Bytes(n))[:n]
+		if n == 24 {
+			key = "dGhlIHNhbXBsZSBub25jZQ=="
+		}
+		got := ws.VerifComputeAcceptKey(key)
+		c.Eq("hs.accept", hsHex(key), hsHex(got), c.O.Call("hs.accept", hsHex(key)))
+		c.Hold(got == hsAccept(key), "handshake.accept_key", "key "+key, got, hsAccept(key))
+	}
+	c.Case("hs/accept", "15", true)
+
 	// 7. Upgrader.Upgrade on crafted requests
 	connVals := []string{"Upgrade", "upgrade", "keep-alive, Upgrade", "keep-alive,upgrade ", "close", "", "Upgrade, ", "Upgrade;x", "keep-alive"}
 	upgVals := []string{"websocket", "WebSocket", "websocket, h2c", "h2c", "", "web socket", "websocket/13"}
@@ -343,15 +357,27 @@ func c13Hs(c *h.Ctx) {
 			hd["Sec-Websocket-Extensions"] = e
 		}
 		set("Sec-Websocket-Protocol", protoVals[r.Intn(len(protoVals))], false)
-		if r.Chance(30) {
-			hd["Origin"] = []string{"http://example.com"}
+		// the default origin policy (CheckOrigin nil): no Origin header, or its host equals the request's Host
+		type originCase struct {
+			v  string
+			ok bool
 		}
+		oc := []originCase{{"", true}, {"http://example.com", true}, {"https://example.com", true}, {"http://example.com:8080", false}, {"https://other.example", false},
+			{"http://EXAMPLE.com", false}, {"http://example.com/path?x=1", true}, {"%zz://bad origin", false}, {"null", false}}[r.Intn(9)]
+		if oc.v != "" {
+			hd["Origin"] = []string{oc.v}
+		}
+		defaultOrigin := r.Chance(35)
 		method := "GET"
 		if r.Chance(5) {
 			method = []string{"POST", "get", "HEAD"}[r.Intn(3)]
 		}
 		originOk := !r.Chance(8)
 		up := ws.Upgrader{EnableCompression: r.Bool(), ReadBufferSize: 256, WriteBufferSize: 256, CheckOrigin: func(*http.Request) bool { return originOk }}
+		if defaultOrigin {
+			up.CheckOrigin = nil
+			originOk = oc.ok
+		}
 		subsArg := "nil"
 		if r.Chance(50) {
 			up.Subprotocols = [][]string{{}, {"chat"}, {"superchat", "chat"}, {"x", "superchat"}}[r.Intn(4)]
@@ -382,7 +408,13 @@ func c13Hs(c *h.Ctx) {
 			rw.early = []byte{0x81, 0x80, 0, 0, 0, 0}
 		}
 		key := hd.Get("Sec-Websocket-Key")
-		in := fmt.Sprintf("Upgrade compress=%v subprotocols=%s originOk=%v early=%v method=%s responseHeader=%s request=%s", up.EnableCompression, subsArg, originOk, early, method, respArg, hsHeader(hsSortedKeys(hd), hd))
+		{
+			isUp := ws.IsWebSocketUpgrade(req)
+			m1 := c.O.Call("hs.tlcv", hsHex("upgrade"), hsList(hd["Connection"]))
+			m2 := c.O.Call("hs.tlcv", hsHex("websocket"), hsList(hd["Upgrade"]))
+			c.Eq("hs.is_upgrade", hsHeader(hsSortedKeys(hd), hd), b01(isUp), b01(m1 == "1" && m2 == "1"))
+		}
+		in := fmt.Sprintf("Upgrade defaultOriginPolicy=%v compress=%v subprotocols=%s originOk=%v early=%v method=%s responseHeader=%s request=%s", defaultOrigin, up.EnableCompression, subsArg, originOk, early, method, respArg, hsHeader(hsSortedKeys(hd), hd))
 		var conn *ws.Conn
 		impl := h.Safe(func() string {
 			var err error
